@@ -6,6 +6,6 @@ cd "$(dirname "$0")"
 PIP="/venv/bin/pip install --quiet --no-index --find-links /opt/veriftools/wheels --target .deps --upgrade"
 mkdir -p .deps evidence replays/tmp
 /venv/bin/python -c "import sys; sys.path.insert(0,'.deps'); import jsonschema" 2>/dev/null || $PIP jsonschema
-/venv/bin/python -c "import sys; sys.path.insert(0,'.deps'); import atheris" 2>/dev/null || $PIP atheris || echo "atheris unavailable (only thorough fuzz campaigns need it)"
+
 /venv/bin/python -c "import hypothesis" 2>/dev/null || $PIP hypothesis
 /venv/bin/python -c "import sys; sys.path.insert(0,'.deps'); import hypothesis, jsonschema; print('setup ok: hypothesis', hypothesis.__version__)"
